@@ -218,10 +218,15 @@ def run(ctx):
     r4.check(pol.get("include") == "target in self.endpoints" and pol.get("exclude") == "target not in self.endpoints", f"{ef.module.relpath}::{ef.qual}",
              "include keeps endpoints, exclude drops them", f"EndpointFilter polarity is {pol}", ef.where)
     cf = idx.func("gwf.filtering:CompositeFilter.apply")
-    seq = any(isinstance(n, ast.For) and dotted(n.iter) == "self.filters" and any(
-        isinstance(s_, ast.Assign) and ast.unparse(s_.value) == f"{dotted(n.target)}.apply(targets)" and dotted(s_.targets[0]) == "targets" for s_ in n.body)
-        for n in walk_no_nested(cf.node))
-    r4.check(seq, f"{cf.module.relpath}::{cf.qual}", "filters are applied one after the other (intersection)", "CompositeFilter does not apply every filter in sequence", cf.where)
+    from ..symeval import Obj, PureInterp, Raised, Unsupported
+    try:
+        f1, f2 = Obj("f1"), Obj("f2")
+        got = PureInterp(ctx, hooks={"attr:apply": lambda recv, ts: list(ts) + [recv._name]}).call(
+            cf, (["T"],), {}, self_obj=Obj("composite", filters=[f1, f2], **{"__class__": idx.cls("gwf.filtering:CompositeFilter")}))
+    except (Raised, Unsupported) as exc:
+        got = f"<{exc}>"
+    r4.check(got == ["T", "f1", "f2"], f"{cf.module.relpath}::{cf.qual}", "filters are applied one after the other, each to the result of the previous (intersection)",
+             f"CompositeFilter.apply over filters [f1, f2] yields {got}: every filter must be applied in sequence to the previous result", cf.where)
     # printers total
     fm = idx.module_const("gwf.plugins.status", "FORMATS")
     printers = []
